@@ -345,7 +345,9 @@ func (w *walker) walk(e *yang.Entry, depth int) {
 	_ = e.GetErrors()
 	_ = e.ReadOnly()
 	_ = e.Namespace()
-	_, _ = e.InstantiatingModule()
+	if !guardRootNotModule || rootIsModule(e) {
+		_, _ = e.InstantiatingModule()
+	}
 	_ = e.DefaultValues()
 	_, _ = e.SingleDefaultValue()
 	w.readType(e.Type, 0)
